@@ -47,11 +47,17 @@ Check(c, o) ==
 \* ---- case spaces
 SeqsUpTo(S, n) == UNION {[1..k -> S] : k \in 0..n}
 \* wrong keys in several shapes: other length, same length as the configured key, a prefix of it, another letter case
-Reqs == [key : {"ok", "wrong", "samelen", "prefix", "upper", "none"}, body : {"small", "big"}]
+\* shape: how the request looks apart from key and body -- "plain" (POST), another method, a CORS preflight (OPTIONS with
+\* Origin and Access-Control-Request-Method; anybody can send one), a WebSocket upgrade request, a HEAD.  None of that is
+\* in the statement: a request without the key is rejected whatever it looks like
+Shapes == {"plain", "options", "preflight", "upgrade", "head", "delete"}
+Reqs == [key : {"ok", "wrong", "samelen", "prefix", "upper", "none"}, body : {"small", "big"}, shape : {"plain"}]
+ShapeCases == [chain : {<<"AUTH">>, <<"P1", "AUTH", "P2">>, <<"AUTH", "SIZE", "P1">>, <<"LOG", "AUTH", "HDR", "P3">>, <<"P1", "SIZE", "P2">>},
+               req : [key : {"ok", "wrong", "none"}, body : {"small", "big"}, shape : Shapes \ {"plain"}]]
 \* at most one of each probe (they are identified by name), any multiset of the others
 DistinctProbes(ch) == \A i, j \in DOMAIN ch : (i # j /\ ch[i] \in Probes) => ch[i] # ch[j]
 ValidCases(n) == {c \in [chain : SeqsUpTo(Valid, n), req : Reqs] : DistinctProbes(c.chain)}
 \* one invalid token at every position of short valid chains
-InvalidCases(n) == {c \in [chain : SeqsUpTo(Valid \cup Invalid, n), req : {[key |-> "ok", body |-> "small"]}] :
+InvalidCases(n) == {c \in [chain : SeqsUpTo(Valid \cup Invalid, n), req : {[key |-> "ok", body |-> "small", shape |-> "plain"]}] :
                       Cardinality({i \in DOMAIN c.chain : c.chain[i] \in Invalid}) = 1}
 =============================================================================
